@@ -209,6 +209,23 @@ def install(ex):
         bc = psi.bc
         if 'np_seed' in op:
             np.random.seed(op['np_seed'])
+        if 'must_raise' in op:
+            # a documented refusal: the call has to raise and must leave the state as it was
+            inner = {k_: v_ for k_, v_ in op.items() if k_ != 'must_raise'}
+            fp = fingerprint(psi)
+            try:
+                if t == 'call':
+                    getattr(psi, op['method'])(*op.get('args', []), **op.get('kwargs', {}))
+                else:
+                    do_op(psi, inner, A, key, SI)
+                ex_['raised'] = None
+            except Exception as e:
+                ex_['raised'] = [type(e).__name__, str(e)[:200]]
+            d = fp_diff(fp, fingerprint(psi))
+            if d:
+                ex_['changed'] = d
+            log_opt('refusals', **{op.get('method', t): op['must_raise']})
+            return psi, ex_
         if t == 'apply_local_op':
             i = op['i']
             kw = kwargs(op, ['unitary', 'renormalize', 'cutoff', 'understood_infinite'])
@@ -526,7 +543,9 @@ def install(ex):
             au = op.get('add_unitcells')
             log_opt(t, psi_left='MPS', psi_right='MPS', first=str(first), last=str(last),
                     add_unitcells='default' if au is None else ('pair' if isinstance(au, list) else 'int'),
-                    new_first_last='default' if 'new_first_last' not in op else ('unchanged' if [nf, nl] == [first, last] else 'pair'),
+                    new_first_last='default' if 'new_first_last' not in op else (
+                        ['unchanged'] if [nf, nl] == [first, last] else ['pair', 'one-side' if (nf == first) != (nl == last) else 'both-sides'] +
+                        (['whole-finite-chain'] if new.bc == 'finite' else [])),
                     cutoff=present(op, 'cutoff'), **{'<bc>': bc})
             psi = new
         elif t == 'gauge_total_charge':
